@@ -52,6 +52,7 @@ def required_counters(tier):
         "annot_cases": 50, "tree_later_leaf_failed_after_binding": 30,
         "cause_present_checked": 300,
         "cause_absent_checked": 300,
+        "misuse.calls": 300, "stacked.calls": 50,
     }
 
 
@@ -408,9 +409,106 @@ def innocent(case, b):
     return True
 
 
+def run_misuse(rec, rng):
+    """annotations that are misuse whatever the value is (a bare dtype category as a leaf type, a composite
+    structure string over names nothing has bound): AnnotationError for every value, trees WITHOUT leaves included,
+    as parameter and as return annotation, under both typecheckers and for plain isinstance"""
+    import beartype
+    import typeguard
+
+    import jaxtyping
+    from jaxtyping import AnnotationError, PyTree, jaxtyped
+
+    anns = {
+        "PyTree[Float]": lambda: PyTree[jaxtyping.Float],
+        "PyTree[PyTree[int, 'S T']]": lambda: PyTree[PyTree[int, "S T"]],
+        "PyTree[Shaped, 'T']": lambda: PyTree[jaxtyping.Shaped, "T"],
+        "PyTree[int, 'S T'] (nothing bound)": lambda: PyTree[int, "S T"],
+    }
+    vals = {"[]": [], "()": (), "{}": {}, "{'w': None, 'b': None}": {"w": None, "b": None}, "[[], {}]": [[], {}], "[array]": [real.np_array((2,))], "array": real.np_array((2,)), "[1]": [1], "(None, [])": (None, [])}
+    for an, mk in anns.items():
+        for vn, v in vals.items():
+            for cname, tc in (("typeguard", typeguard.typechecked), ("beartype", beartype.beartype)):
+                for pos in ("parameter", "return"):
+                    a = mk()
+                    ns = {"T_a": a, "jaxtyped": jaxtyped, "tc": tc}
+                    real.exec_src("@jaxtyped(typechecker=tc)\ndef f(x: T_a):\n    return 0\n" if pos == "parameter" else "@jaxtyped(typechecker=tc)\ndef f(x) -> T_a:\n    return x\n", ns)
+                    try:
+                        ns["f"](v)
+                        got = "no error"
+                    except BaseException as e:  # noqa
+                        got = type(e).__name__ if not isinstance(e, AnnotationError) else "AnnotationError"
+                    rec.count("misuse.calls")
+                    rec.case(("misuse", an, vn, cname, pos), True)
+                    if got != "AnnotationError":
+                        rec.violation("annotation-misuse", {"annotation": an, "value": vn, "checker": cname, "position": pos}, f"{an} as {pos} annotation, value {vn}, {cname}: expected AnnotationError, got {got}", mechanism="misuse-" + ("swallowed" if got == "no error" else got) + ("-leafless-tree" if "array" not in vn and "1" not in vn else ""))
+                        return
+            try:
+                isinstance(v, mk())
+                got = "no error"
+            except BaseException as e:  # noqa
+                got = type(e).__name__ if not isinstance(e, AnnotationError) else "AnnotationError"
+            rec.count("misuse.isinstance")
+            if got != "AnnotationError":
+                rec.violation("annotation-misuse", {"annotation": an, "value": vn, "checker": "isinstance"}, f"isinstance({vn}, {an}): expected AnnotationError, got {got}", mechanism="misuse-isinstance-" + got.replace(" ", "-"))
+                return
+
+
+def run_stacked(rec, rng):
+    """'raised iff violated' when jaxtyped layers are stacked: a layer without typechecker (typechecker=None, or the
+    wrapper the import hook puts on with typechecker None) below or above a layer that has one, two different
+    typecheckers, the old double-decorator spelling under a new-style layer"""
+    import beartype
+    import typeguard
+
+    from jaxtyping import Float, TypeCheckError, jaxtyped
+
+    N = np.ndarray
+    tg, bt = typeguard.typechecked, beartype.beartype
+
+    LOG = []
+
+    def base():
+        # (generated source: this module's `from __future__ import annotations` must not stringify the annotations)
+        ns = {"Float": Float, "N": N, "LOG": LOG}
+        real.exec_src('def f(x: Float[N, "a"], y: Float[N, "a"]) -> Float[N, "a"]:\n    LOG.append("body")\n    return x\n', ns)
+        return ns["f"]
+
+    stacks = {
+        "tc over None": lambda: jaxtyped(typechecker=tg)(jaxtyped(typechecker=None)(base())),
+        "beartype over None": lambda: jaxtyped(typechecker=bt)(jaxtyped(typechecker=None)(base())),
+        "None over tc": lambda: jaxtyped(typechecker=None)(jaxtyped(typechecker=tg)(base())),
+        "typeguard over beartype": lambda: jaxtyped(typechecker=tg)(jaxtyped(typechecker=bt)(base())),
+        "beartype over typeguard": lambda: jaxtyped(typechecker=bt)(jaxtyped(typechecker=tg)(base())),
+        "tc over old-style": lambda: jaxtyped(typechecker=tg)(jaxtyped(tg(base()))),
+        "old-style over None": lambda: jaxtyped(tg(jaxtyped(typechecker=None)(base()))),
+        "tc over tc over None": lambda: jaxtyped(typechecker=tg)(jaxtyped(typechecker=tg)(jaxtyped(typechecker=None)(base()))),
+    }
+    for name, mk in stacks.items():
+        f = mk()
+        for iname, (x, y) in {"ill": (real.np_array((2,)), real.np_array((3,))), "ill-dtype": (real.np_array((2,)), real.np_array((2,), "int32")), "well": (real.np_array((2,)), real.np_array((2,)))}.items():
+            del LOG[:]
+            try:
+                f(x, y)
+                got = "ran"
+            except BaseException as e:  # noqa
+                got = "TypeCheckError" if isinstance(e, TypeCheckError) else type(e).__name__
+            rec.count("stacked.calls")
+            rec.case(("stacked", name, iname), True)
+            want = "ran" if iname == "well" else "TypeCheckError"
+            if name.startswith("old-style") and got == "TypeError" and iname != "well":
+                got = "TypeCheckError"  # the old spelling surfaces the typechecker's own TypeError: outside this property's wording
+            if got != want or (iname != "well" and LOG) or (iname == "well" and LOG != ["body"]):
+                rec.violation("raised-iff-violated", {"stack": name, "input": iname}, f"stacked decoration {name!r}, {iname}-typed call: {got}, body ran {len(LOG)}x (expected {want})", mechanism="stacked-" + name.replace(" ", "-") + "-" + got)
+                return
+
+
 def run_shard(rec, seed, shard, tier):
     warnings.filterwarnings("ignore")
     GT.ensure_registered()
+    if shard["i"] % 4 == 0:
+        run_misuse(rec, random.Random(f"{seed}/C13/{shard['i']}/misuse"))
+        run_stacked(rec, random.Random(f"{seed}/C13/{shard['i']}/stacked"))
     for k in range(CASES[tier]):
         key = f"{seed}/C13/{shard['i']}/{k}"
         run_case(rec, random.Random(key), rngkey=key)
